@@ -99,10 +99,11 @@ Definition ex_reqs : list hreq :=
     mkq KHandle "POST" "/a/b" 9 []; mkq KHandle "PURGE" "/c" 10 [];
     mkq KBegin "" "" 0 []; mkq KHandle "GET" "/tmp" 11 []; mkq KDelete "GET" "/tmp" 0 []; mkq KCommit "" "" 0 [];
     mkq KUpdate "GET" "/a/b" 12 [] ].
-Definition ex_ops : list hop := map (parsed_hop 100 100) ex_reqs.
-Definition ex_t : txn := final_txn ex_ops.
-Definition ex_s : mstate := final_map ex_ops.
-Definition m_GET := S2B "GET".
+(* notations, not definitions: the instances below are then syntactically the theorems' statements *)
+Notation ex_ops := (map (parsed_hop 100 100) ex_reqs).
+Notation ex_t := (final_txn ex_ops).
+Notation ex_s := (final_map ex_ops).
+Notation m_GET := (S2B "GET").
 
 Example ex_history_runs :
   map (fun o => (h_valid o, h_pslen o, h_hostsplit o)) (firstn 6 ex_ops) =
@@ -126,7 +127,8 @@ Example C01_end_to_end_closed_ex :
   sres_direct (spec_lookup (reg_patterns ex_s m_GET) [] path).
 Proof.
   split; [vm_compute; reflexivity|].
-  apply (C01_end_to_end_closed 100 100 ex_reqs); [exact ex_get_path_only|left; vm_compute; reflexivity|apply le_n].
+  exact (C01_end_to_end_closed 100 100 ex_reqs m_GET [] (S2B "/a/q/r/z") _ ex_get_path_only
+           (or_introl (eq_refl true)) (le_n _)).
 Qed.
 
 (* ================================================================== *)
@@ -205,22 +207,25 @@ Print Assumptions C08_wf_tree.
 (* the full statement (hostname methods, every request path) stays open: *)
 Check C08_end_to_end_statement.
 
-Definition ex_L (p : string) :=
-  lres_sres (roots_lookup (e2e_fuel (S2B p) (t_roots ex_t) m_GET) (t_roots ex_t) m_GET [] (S2B p) false [] []).
-Example C08_end_to_end_ex :
+Notation ex_L p :=
+  (lres_sres (roots_lookup (e2e_fuel (S2B p) (t_roots ex_t) m_GET) (t_roots ex_t) m_GET [] (S2B p) false [] [])).
+Example C08_end_to_end_ex_values :
   ex_L "/a/b/" = Some (STsr (S2B "/a/b") []) /\                      (* remove the slash *)
   ex_L "/c" = Some (STsr (S2B "/c/") []) /\                          (* add it *)
   ex_L "/a/v/" = Some (STsr (S2B "/a/{x}") [(S2B "x", S2B "v")]) /\   (* with the recommended route's parameters *)
   ex_L "/a/q/r/z" = Some (SDirect (S2B "/a/*{w}/z") [(S2B "w", S2B "q/r")]) /\
-  ex_L "/zzz" = Some SNone /\ ex_L "*" = Some SNone /\
+  ex_L "/zzz" = Some SNone /\ ex_L "*" = Some SNone.
+Proof. vm_compute. repeat split. Qed.
+(* the theorem's instances (hypotheses hold on that state) *)
+Example C08_end_to_end_ex :
   ex_L "/a/v/" = Some (spec_lookup (reg_patterns ex_s m_GET) [] (S2B "/a/v/")) /\
   ex_L "*" = Some (spec_lookup (reg_patterns ex_s m_GET) [] (S2B "*")).
 Proof.
-  repeat (split; [vm_compute; reflexivity|]). split.
-  - apply (C08_end_to_end_closed 100 100 ex_reqs);
-      [exact ex_get_path_only|discriminate|left; vm_compute; reflexivity|apply le_n].
-  - apply (C08_end_to_end_closed 100 100 ex_reqs);
-      [exact ex_get_path_only|discriminate|right; vm_compute; reflexivity|apply le_n].
+  split.
+  - exact (C08_end_to_end_closed 100 100 ex_reqs m_GET [] (S2B "/a/v/") _ ex_get_path_only
+             ltac:(discriminate) (or_introl (eq_refl true)) (le_n _)).
+  - exact (C08_end_to_end_closed 100 100 ex_reqs m_GET [] (S2B "*") _ ex_get_path_only
+             ltac:(discriminate) (or_intror (eq_refl false)) (le_n _)).
 Qed.
 
 (* ================================================================== *)
@@ -332,12 +337,12 @@ Definition ex_opts : options := {| handleMethodNotAllowed := true; handleOptions
 Definition ex_ign (k : mkey) : bool := bytes_eqb (snd k) (S2B "/c/").    (* /c/ ignores the trailing slash *)
 Definition ex_red (k : mkey) : bool := true.                             (* every other route redirects *)
 Definition ex_rq (m p : string) : request := {| r_method := S2B m; r_urlpath := S2B p; r_rawpath := [] |}.
-Definition ex_serve (m p : string) : result mkey :=
-  let rq := ex_rq m p in
-  let fuel := serve_fuel (req_path rq) (t_roots ex_t) in
-  let first := first_lookup fuel (t_roots ex_t) (r_method rq) [] (req_path rq) in
-  serve_http ex_ign ex_red cleanfn ex_opts (disp_roots ex_t) (route_lookup fuel (t_roots ex_t) [] (req_path rq))
-             rq ex_c0 (lres_params first) (lres_tsr_params first).
+Notation ex_fuel m p := (serve_fuel (req_path (ex_rq m p)) (t_roots ex_t)).
+Notation ex_first m p := (first_lookup (ex_fuel m p) (t_roots ex_t) (r_method (ex_rq m p)) [] (req_path (ex_rq m p))).
+Notation ex_serve m p :=
+  (serve_http ex_ign ex_red cleanfn ex_opts (disp_roots ex_t)
+              (route_lookup (ex_fuel m p) (t_roots ex_t) [] (req_path (ex_rq m p)))
+              (ex_rq m p) ex_c0 (lres_params (ex_first m p)) (lres_tsr_params (ex_first m p))).
 Definition ex_view (r : result mkey) :=
   match r with
   | Done o => Some (o_handler o, c_route (o_ctx o), ctx_params (o_ctx o), o_allow o)
@@ -361,15 +366,15 @@ Proof. vm_compute. repeat split. Qed.
 
 (* the theorem's instance on that state: hypotheses hold, conclusion is about the values above *)
 Example serve_end_to_end_ex : forall m p, In (m, p) [("GET", "/a/v/"); ("PUT", "/c"); ("OPTIONS", "*")]%string ->
-  let rq := ex_rq m p in
   exists o, ex_serve m p = Done o /\
     dispatch_spec ex_ign ex_red FoxC17.Spec.clean_spec ex_opts (map_has_routes ex_s)
-                  (spec_route_lookup ex_s [] (req_path rq)) rq (spec_params ex_s (r_method rq) [] (req_path rq)) (observe o).
+                  (spec_route_lookup ex_s [] (req_path (ex_rq m p))) (ex_rq m p)
+                  (spec_params ex_s (r_method (ex_rq m p)) [] (req_path (ex_rq m p))) (observe o).
 Proof.
-  intros m p Hin rq.
-  assert (Hside : req_path rq <> [] /\ reqpath_ok (req_path rq)).
+  intros m p Hin.
+  assert (Hside : req_path (ex_rq m p) <> [] /\ reqpath_ok (req_path (ex_rq m p))).
   { simpl in Hin. destruct Hin as [E|[E|[E|[]]]]; injection E as <- <-; (split; [discriminate|]);
       [left|left|right]; vm_compute; reflexivity. }
   destruct Hside as [Hne Hok].
-  exact (serve_end_to_end_closed ex_ign ex_red ex_opts 100 100 ex_reqs rq [] ex_c0 _ ex_all_path_only Hne Hok (le_n _)).
+  exact (serve_end_to_end_closed ex_ign ex_red ex_opts 100 100 ex_reqs (ex_rq m p) [] ex_c0 _ ex_all_path_only Hne Hok (le_n _)).
 Qed.
